@@ -165,9 +165,11 @@ def def_regex(d):
             parts.append(re.escape(tok[1]))
         else:
             ftype = tok[2]
-            rx = {"d": r"\d+", "f": r"\d+\.\d+", "w": r"[A-H]+",
-                  "": r"[K-P ]+?" if d["matcher"] != "re" else r"[K-P ]+",
-                  "Color": r"[A-Z]+"}[ftype]
+            if d["matcher"] == "re":
+                rx = {"d": r"\d+", "f": r"\d+\.\d+", "w": r"[A-H]+", "": r"[K-P ]+", "Color": r"[A-Z]+"}[ftype]
+            else:
+                # documented parse semantics: an untyped field takes any text (non-greedy)
+                rx = {"d": r"\d+", "f": r"\d+\.\d+", "w": r"\w+", "": r".+?", "Color": r"[A-Z]+"}[ftype]
             parts.append("(" + rx + ")")
     return re.compile("^" + " ".join(parts) + "$")
 
@@ -220,11 +222,15 @@ def gen_steplib(rng, size):
     return {"defs": defs, "modules": modules}
 
 
-def instantiate(rng, d):
+def instantiate(rng, d, placeholder=None):
     parts = []
+    used = False
     for tok in d["tokens"]:
         if tok[0] == "lit":
             parts.append(tok[1])
+        elif placeholder and not used and tok[2] == "" and d["matcher"] != "re":
+            parts.append("<%s>" % placeholder)
+            used = True
         else:
             parts.append(gen_value(rng, tok[2]))
     return " ".join(parts)
@@ -310,7 +316,12 @@ def gen_outline(rng, lib, sid, opts):
     # put placeholders into some step texts: replace one value token by <col>
     # keeps things simple: a placeholder replaces the *whole* text of an
     # undefined step or is appended to a doc-string / table cell
+    by_id = {d["id"]: d for d in lib["defs"]}
     for st in steps:
+        d = by_id.get(st.get("def"))
+        if d is not None and rng.random() < opts.get("p_step_placeholder", 0.3) and \
+                any(t[0] == "fld" and t[2] == "" for t in d["tokens"]) and d["matcher"] != "re":
+            st["text"] = instantiate(rng, d, placeholder=rng.choice(cols))
         if st.get("doc") is not None and rng.random() < 0.5:
             st["doc"] += "\nvalue <%s>" % rng.choice(cols)
         if st.get("table") and st["table"]["rows"] and rng.random() < 0.5:
